@@ -73,6 +73,54 @@ def rand_coef(rng):
     return rng.choice([(1, 0), (-1, 0), (0, 1), (0, -1), (2, 0), (1, 1), (1, -1), (-2, 1), (3, 0), (0, 0)])
 
 
+
+def frozenset_hash_colliding_labels(rng, tries=6):
+    """Pairs of labels on disjoint qubits whose frozenset hashes collide (CPython: XOR of shuffled element hashes, then a
+    function of that value and the length): a GF(2) dependency among the shuffled hashes of ~80 candidate factors (one per qubit)
+    split into two halves of equal size.  Any intern table / cache keyed by hash(label) alone conflates the two; with the
+    string key (string_form_separates_labels) they stay apart.  Only pairs that really collide under this interpreter are used."""
+    M = (1 << 64) - 1
+    out = []
+    for _ in range(tries):
+        cand = [(i, rng.randint(1, 3)) for i in rng.sample(range(0, 400), 80)]
+        vecs = []
+        for e in cand:
+            h = hash(e) & M
+            vecs.append((((h ^ 89869747) ^ (h << 16)) * 3644798167) & M)
+        basis = {}          # leading bit -> (vector, combination mask)
+        deps = []
+        for k, v in enumerate(vecs):
+            comb = 1 << k
+            while v:
+                b = v.bit_length() - 1
+                if b not in basis:
+                    basis[b] = (v, comb)
+                    break
+                v ^= basis[b][0]
+                comb ^= basis[b][1]
+            if v == 0:
+                deps.append(comb)
+        even = [d for d in deps if bin(d).count("1") % 2 == 0 and bin(d).count("1") >= 2]
+        if not even and len(deps) >= 2:
+            even = [deps[0] ^ deps[1]]
+        for d in even[:2]:
+            members = [cand[k] for k in range(len(cand)) if d >> k & 1]
+            if len(members) < 2 or len(members) % 2:
+                continue
+            rng.shuffle(members)
+            A, B = sorted(members[:len(members) // 2]), sorted(members[len(members) // 2:])
+            if hash(frozenset(A)) == hash(frozenset(B)):
+                out.append((tuple(A), tuple(B)))
+    # the pair a seeded change was demonstrated with (kept as a corpus case; used only if it collides here)
+    A = ((0, 1), (1, 3), (3, 2), (4, 1), (5, 2), (7, 2), (9, 2), (11, 1), (12, 2), (13, 1), (16, 3), (19, 2), (21, 3), (24, 1),
+         (27, 1), (29, 3))
+    B = ((30, 3), (31, 1), (32, 2), (34, 1), (35, 2), (36, 3), (39, 1), (44, 2), (47, 1), (51, 2), (53, 3), (55, 1), (56, 3),
+         (60, 3), (62, 3), (64, 3))
+    if hash(frozenset(A)) == hash(frozenset(B)):
+        out.insert(0, (A, B))
+    return out
+
+
 def main():
     a = O.std_args().parse_args()
     rng = random.Random(a.seed * 2654435 + 19)
@@ -200,6 +248,19 @@ def main():
                      {"pairs": pairs})
             break
         seen[pairs] = lab
+    # labels whose frozenset hashes collide, alive together: they must remain two labels with their own content and string form
+    for A, B in frozenset_hash_colliding_labels(rng):
+        res.count(("hash_collision", A, B), nontrivial=True, bucket="label_identity:colliding_frozenset_hashes")
+        la = PauliLabel(A)
+        lb = PauliLabel(B)
+        sb = " ".join("XYZ"[p - 1] + str(i) for i, p in B)
+        from quri_parts.core.operator import pauli_label as _pl
+        lc = _pl(sb)
+        if la is lb or la == lb or tuple(sorted(lb)) != B or str(lb) != sb or tuple(sorted(lc)) != B or tuple(sorted(la)) != A:
+            res.fail("corr:pauli_label:identity", f"labels {A} and {B} (equal frozenset hashes) alive together: the second has content "
+                     f"{sorted(lb)} / str {str(lb)!r}; from its string: {sorted(lc)}", {"A": A, "B": B})
+            break
+        del la, lb, lc
     res.emit()
 
 
